@@ -270,6 +270,7 @@ type Msg struct {
 	Sel uint32
 	Met uint8
 	API bool
+	Bad bool // API requests only: the query additionally carries a pair that net/url refuses to parse ("bad=1;2")
 }
 
 func (m Msg) met(kind int) bool { return m.Met&(1<<uint(kind)) != 0 }
@@ -291,6 +292,9 @@ func (m Msg) String() string {
 	if m.API {
 		s += " API"
 	}
+	if m.Bad {
+		s += " unparsable-query"
+	}
 	return s + "}"
 }
 
@@ -310,6 +314,21 @@ func Alphabet(t *Node) []Msg {
 		if !seen[m] {
 			seen[m] = true
 			out = append(out, m)
+		}
+		if m.API && !m.Bad {
+			// the same API request with a query string http.Request.ParseForm rejects, where a query-string
+			// verifier is reached (requests to the proxy's own API are never counted, whatever they look like)
+			for _, l := range Reached(t, m) {
+				if l.Kind == KQuery {
+					mb := m
+					mb.Bad = true
+					if !seen[mb] {
+						seen[mb] = true
+						out = append(out, mb)
+					}
+					break
+				}
+			}
 		}
 	}
 	// uniform: -1 = branch on every expectation, 0 = all unmet, 1 = all met
@@ -421,6 +440,9 @@ func (m Msg) Build(id int) (*http.Request, *http.Response) {
 		if m.Sel&(1<<uint(i)) != 0 {
 			q += "&s" + strconv.Itoa(i) + "=1"
 		}
+	}
+	if m.Bad {
+		q += "&bad=1;2"
 	}
 	method := "DELETE"
 	if m.met(KMethod) {
